@@ -2,7 +2,8 @@
    Statements only; every proof is [exact lemma]. *)
 From Coq Require Import NArith List Bool.
 From Coq.Strings Require Import Byte.
-From LOF Require Import Base.Bytes Model.Wire Model.Build Proofs.WireP Proofs.BuildP Proofs.NormP Model.BuildSw Proofs.HelloBaseP.
+From LOF Require Import Base.Bytes Base.Res Model.Wire Model.Build Model.Parse Proofs.WireP Proofs.BuildP Proofs.NormP Model.BuildSw Proofs.HelloBaseP
+  Proofs.ParseRtAll6P Proofs.DecodedOpsP.
 Import ListNotations.
 Open Scope N_scope.
 
@@ -36,3 +37,16 @@ Proof. exact build_m_ok. Qed.
    padded to 64 bits and its length field counts header and bitmaps (fix D46) ---- *)
 Theorem C13_applies_to_hello : forall xid es, consistent (hello_tree xid es) = true.
 Proof. exact hello_consistent. Qed.
+
+(* ---- values obtained by DECODING: the value the parser returns for the encoding of any
+   controller-side recipe (hypothesis of C05) answers every sequence of Len() / MarshalBinary()
+   calls with one size and with the bytes it was parsed from ---- *)
+Theorem C13_shape_suffices : forall t ops, shaped t = true ->
+  run_ops t ops = map (fun o => match o with OpLen => RLen (glen t) | OpMarshal => RBytes (fst (marshal t)) end) ops.
+Proof. exact ops_repeatable_shaped. Qed.
+Theorem C13_decoded_values : forall m xid ops, pmsg_ok m = true -> xid < 4294967296 ->
+  let bytes := fst (marshal (build_m xid m)) in
+  exists v, parse_top bytes = Ok v /\
+            run_ops v ops = map (fun o => match o with OpLen => RLen (glen v) | OpMarshal => RBytes bytes end) ops.
+Proof. exact decoded_ops_repeatable. Qed.
+Print Assumptions C13_decoded_values.
